@@ -69,7 +69,7 @@ HIST_PLAN = {
                      "edges() yielding first<=second once per pair",
                 floors={"calls_total": 50000, "calls_removeVertexFromEdgeList": 500, "calls_clearEdges": 100, "calls_removeSelfLoops": 300,
                         "noop_exactness_checks": 5000, "obs_hasEdge": 500000}),
-    "C03": dict(quick=18000, thorough=600000,
+    "C03": dict(quick=18000, thorough=300000,
                 rule="random histories on labelled directed and undirected graphs (labels int,unsigned,double,char,string,struct; every label value unique "
                      "per call so a stale label is never mistaken for the right one); after every call getEdgeLabel (throwing and non-throwing), "
                      "hasEdge(i,j,label) are compared for EVERY ordered pair with a map model; counters label_reads_after_* show reads of pairs "
@@ -83,7 +83,7 @@ HIST_PLAN = {
                      "ordered pairs, hasEdge, getEdgeNumber, getTotalEdgeNumber, degrees and adjacency matrix are compared with a map pair->multiplicity",
                 floors={"calls_total": 40000, "calls_setEdgeMultiplicity(0)": 200, "calls_removeMultiedge": 1000, "calls_clearEdges": 50,
                         "calls_removeVertexFromEdgeList": 300, "mult_reads_absent_pair": 50000}),
-    "C05": dict(quick=12000, thorough=500000,
+    "C05": dict(quick=12000, thorough=360000,
                 rule="random histories on DirectedWeightedGraph and UndirectedWeightedGraph; two weight alphabets: exact dyadic k/8 (total weight must "
                      "match the model sum EXACTLY) and rounding (random doubles, tolerance 1e-9*(1+sum|w| ever added)); getEdgeWeight (both modes, both "
                      "orientations), getTotalWeight, getWeightMatrix and the structural observers compared after every call",
@@ -130,8 +130,8 @@ def run_hist(prop, tier, seed):
 def run_c07(prop, tier, seed):
     t0 = time.time()
     binary = V.build_engine(REJECT, "asan")
-    # 12 classes x 8 state variants per round
-    cases = 12 * 8 * (12 if tier == "quick" else 400)
+    # 12 classes x 10 state variants per round
+    cases = 12 * 10 * (10 if tier == "quick" else 330)
     res = V.run_sharded(prop, binary, [], cases, seed, tier, V.NCPU, 900 if tier == "quick" else 7200, replay_dir(prop), tag="reject",
                         isolate_args=["--x-isolate", "1"])
     c = res.counters
